@@ -190,12 +190,13 @@ _all_proved = None
 def all_proved_keys():
     global _all_proved
     if _all_proved is None:
-        _all_proved = set()
+        acc = set()
         import glob
         for p in glob.glob(os.path.join(VERIF, "units", "U*.rs")):
             for l in open(p):
                 if l.strip().startswith("//@prove"):
-                    _all_proved.add(l.split()[1])
+                    acc.add(l.split()[1])
+        _all_proved = acc          # publish only when complete (units are built from several threads)
     return _all_proved
 
 
@@ -207,7 +208,8 @@ def check_frozen(spec, orig_text):
         return
     if _frozen is None:
         fp = os.path.join(VERIF, "contracts", "frozen.json")
-        _frozen = json.load(open(fp)) if os.path.exists(fp) else {}
+        loaded = json.load(open(fp)) if os.path.exists(fp) else {}
+        _frozen = loaded
     h = hashlib.sha256(orig_text.encode()).hexdigest()
     if os.environ.get("VERIF_FREEZE") == "1":
         _frozen[spec.key] = h
